@@ -275,4 +275,29 @@ def splitFired : List Nat → List ReadEv → List (List ReadEv)
   | [], _ => []
   | d :: ds, evs => evs.takeWhile (fun e => decide (e.after ≤ d)) :: splitFired ds (evs.dropWhile (fun e => decide (e.after ≤ d)))
 
+/-! ### `Bridge.Close`: the endpoints first, the statistics backend last
+
+`Bridge.Close` tears the endpoints down and then calls `ManagerBase.Close`, which cancels the
+context and runs the clean handlers synchronously — the final traffic report, i.e. calls into the
+statistics backend (cloud control / storage).  The backend is external: it may take arbitrarily long. -/
+
+structure CloseObs where
+  srcClosed : Bool := false
+  tgtClosed : Bool := false
+  reported : Bool := false
+deriving DecidableEq, Repr
+
+/-- The effectful steps of `Bridge.Close` (selectors of the calls, in source order) executed against
+a backend that stalls (`stall`) or answers: a stalled `ManagerBase.Close` never returns, so nothing
+after it runs. -/
+def closeRun (stall : Bool) : List String → CloseObs → CloseObs
+  | [], o => o
+  | s :: rest, o =>
+    if s == "ManagerBase.Close" then (if stall then o else closeRun stall rest { o with reported := true })
+    else if s == "sourceForwarder.Close" || s == "sourceTunnelConn.Close" || s == "sourceConn.Close" then
+      closeRun stall rest { o with srcClosed := true }
+    else if s == "targetForwarder.Close" || s == "targetTunnelConn.Close" || s == "targetConn.Close" then
+      closeRun stall rest { o with tgtClosed := true }
+    else closeRun stall rest o
+
 end Tunnox.C02
